@@ -537,6 +537,41 @@ fn families(thorough: bool) -> Vec<Prog> {
         expected: Some("((2, 2), (11, 11))".into()),
         names: with_names(&["imp"]),
     });
+    // ---- 9. capture reaches every position of a function body, also the lazily evaluated ones
+    //         and those next to a captured value that decides them at creation: the function is
+    //         created, every captured name is re-declared, then it is called
+    for cb in [true, false] {
+        let forms: Vec<(&str, &str, String)> = vec![
+            ("right operand of &&", "return cb && n == 1", format!("{}", cb)),
+            ("right operand of ||", "return cb || n == 1", "true".into()),
+            ("right operand of a && chain", "return cb && cb && n == 1", format!("{}", cb)),
+            ("under !", "return !(cb && n == 1)", format!("{}", !cb)),
+            ("then branch", "if cb { return n }; return 0", if cb { "1" } else { "0" }.into()),
+            ("else branch", "if cb { return 0 } else { return n }", if cb { "0" } else { "1" }.into()),
+            ("if-else value", "r := if cb { n } else { 0 - n }; return r", if cb { "1" } else { "-1" }.into()),
+            ("match arm", "return match cb { true => n, => 0 - n, }", if cb { "1" } else { "-1" }.into()),
+            ("while condition", "k := mut 0; while cb && *k < n { k += 1 }; return *k", if cb { "1" } else { "0" }.into()),
+            ("nested function", "h := () -> any { return cb && n == 1 }; return h()", format!("{}", cb)),
+            ("index", "return [10, 20][n]", "20".into()),
+            ("call argument", "return id((cb, n))", format!("({}, 1)", cb)),
+            ("if-set subject", "if q: int = n { return (cb, q) }; return 0", format!("({}, 1)", cb)),
+        ];
+        for (fname, body, want) in forms {
+            out.push(Prog {
+                family: format!("capture in every position: {fname} (captured bool {cb})"),
+                stmts: pre(vec![
+                    "n := std.len([0])".into(),
+                    format!("cb := std.len([0]) == {}", if cb { 1 } else { 2 }),
+                    format!("g := () -> any {{ {body} }}"),
+                    "n := 99".into(),
+                    format!("cb := {}", !cb),
+                    "g()".into(),
+                ]),
+                expected: Some(want),
+                names: with_names(&["n", "cb", "g"]),
+            });
+        }
+    }
     out
 }
 
